@@ -141,6 +141,46 @@ str_case!(str_oneshot_2, str_incremental_2, 2, 4);
 str_case!(str_oneshot_3, str_incremental_3, 3, 5);
 str_case!(str_oneshot_4, str_incremental_4, 4, 6);
 
+/// Text adapter inside a string control: `ESC`, an introducer (APC `_`, PM `^`,
+/// SOS `X`, DCS `P`, OSC `]`) and one symbolic 2-byte character.  Concrete shape, symbolic
+/// values: the 4-byte text query (`str_oneshot_4`) is thorough-only, this slice of it is
+/// where a non-ASCII character meets a state in which everything is skipped.
+macro_rules! str_in_string_control {
+    ($name:ident, $intro:expr) => {
+#[kani::proof]
+#[kani::unwind(6)]
+fn $name() {
+    let intro: u8 = $intro;
+    let ch: [u8; 2] = kani::any();
+    kani::assume(ch[0] >= 0xC2 && ch[0] <= 0xDF && ch[1] >= 0x80 && ch[1] <= 0xBF);
+    let buf: [u8; 4] = [0x1B, intro, ch[0], ch[1]];
+    let text = match core::str::from_utf8(&buf) {
+        Ok(t) => t,
+        Err(_) => {
+            assert!(false, "HARNESS-LIMIT: shape is not valid UTF-8");
+            return;
+        }
+    };
+    let (keep, _ctl) = spec(&buf, 4);
+    let mut got = [false; 4];
+    let mut pos = 0usize;
+    for piece in strip_str(text) {
+        assert!(core::str::from_utf8(piece.as_bytes()).is_ok(), "piece is valid UTF-8");
+        assert!(mark(&buf, piece.as_bytes(), &mut pos, &mut got), "piece: inside input, in order, no control byte");
+    }
+    assert!(same(&got, &keep), "output is exactly the visible text");
+    kani::cover!(!keep[2] && !keep[3]);
+    kani::cover!(ch[1] == 0x85);
+}
+    };
+}
+// one query per introducer (a symbolic introducer costs 13 min / 10 GB)
+str_in_string_control!(str_in_apc, b'_');
+str_in_string_control!(str_in_pm, b'^');
+str_in_string_control!(str_in_sos, b'X');
+str_in_string_control!(str_in_dcs, b'P');
+str_in_string_control!(str_in_osc, b']');
+
 /// Witness of the recorded finding `control-byte-swallowed-by-broken-utf8` (expected to
 /// FAIL while the defect is present): DEL right after a dangling lead byte reaches the output.
 #[kani::proof]
